@@ -83,6 +83,20 @@ class Gen:
     def live(self, w, cls=None):
         return [s for s in w.live() if cls is None or isinstance(s, cls)]
 
+    def pick(self, cands):
+        """choose a target, preferring subsystems stored in an envelope / product space and at
+        density-matrix level (the own-state label cells are reached anyway)"""
+        r = self.rng
+        wts = []
+        for s in cands:
+            x = 1.0
+            if s.index is not None:
+                x *= 3.0
+            if s.expansion_level == EL.Matrix:
+                x *= 2.0
+            wts.append(x)
+        return r.choices(cands, wts)[0]
+
     def loc(self, s):
         return "own" if s.index is None else "env" if isinstance(s.index, int) else "ps"
 
@@ -103,7 +117,7 @@ class Gen:
         cands = self.live(w)
         if not cands:
             return None
-        t = r.choice(cands)
+        t = self.pick(cands)
         sid = w.sid(t)
         en = r.choice(self.entries_for(w, t))
         st = {"kind": "op", "targets": [sid], "entry": en}
@@ -221,13 +235,24 @@ class Gen:
             return None
         k = r.choice([1, 1, 2])
         if k == 1:
-            t = r.choice(cands)
+            t = self.pick(cands)
             en = r.choice(self.entries_for(w, t))
             ts = [t]
             hi = self.handle_of(w, t)
         else:
             if not w.handles:
-                return None
+                # both members of one envelope, through the envelope
+                es = [e for e in w.envs if not e.measured and not e.fock.measured and not e.polarization.measured]
+                if not es:
+                    return None
+                e = r.choice(es)
+                ts = [e.fock, e.polarization]
+                r.shuffle(ts)
+                dims = [dims_of(x) for x in ts]
+                if e.fock.dimensions < 0 or int(np.prod(dims)) > 12:
+                    return None
+                ops = rand_kraus(self.rs, int(np.prod(dims)), r.choice([1, 2, 2]))
+                return {"kind": "kraus", "targets": [w.sid(x) for x in ts], "entry": "env", "ops": [mj(K) for K in ops]}
             hi = r.randrange(len(w.handles))
             mem = [s for s in w.handles[hi].state_objs if not getattr(s, "measured", False)]
             if len(mem) < 2:
@@ -629,6 +654,23 @@ class Gen:
                     out.append({"kind": "struct", "what": "expand", "entry": "ce", "h": 0, "targets": [a]})
                 out.append({"kind": "op", "targets": [r.choice([a, b2])], "entry": r.choice(["state", "ce"]), "h": 0, "gate": "PhaseShift", "params": {"phi": r.uniform(0.3, 2.8)}})
                 out.append({"kind": "op", "gate": "BS", "targets": [a, b2], "entry": "ce", "h": 0, "params": {"eta": math.pi / 4}})
+        elif f == "C10":
+            # repeated displacements along one (complex) direction: the state is a superposition when
+            # the cutoff for the second one is estimated
+            focks = [x for x in w.subs if isinstance(x, Fock)]
+            t = r.choice(focks)
+            d = dims_of(t)
+            if (self.joint_dim(w) // max(d, 1)) <= 4 and d <= 6:
+                a, ph = r.uniform(0.5, 0.9), r.choice([math.pi, math.pi / 2, -math.pi / 2, r.uniform(0.5, 5.8)])
+                en = r.choice(self.entries_for(w, t))
+                for k in range(2):
+                    a2 = a * (1.0 if k == 0 else r.uniform(0.7, 1.1))
+                    st = {"kind": "op", "targets": [sid(t)], "entry": en, "gate": "Displace", "params": {"alpha_re": a2 * math.cos(ph), "alpha_im": a2 * math.sin(ph)}}
+                    if en == "ce":
+                        st["h"] = self.handle_of(w, t)
+                    out.append(st)
+                if r.random() < 0.4:
+                    out.insert(1, {"kind": "struct", "what": "expand", "entry": "state", "targets": [sid(t)]})
         elif f == "C13" and H is not None and len(members(0)) >= 4:
             ms = r.sample(members(0), 4)
             A, B = [sid(x) for x in ms[:2]], [sid(x) for x in ms[2:]]
